@@ -73,12 +73,14 @@ def parse_cmd(c):
     m = re.fullmatch(r":FREQ (\S+)", c)
     if m:
         return rec("FREQ", 0, float(m.group(1)), 1e8)
-    m = re.fullmatch(r":DIG(-?\d+):PATT:LENG (-?\d+)", c)
+    # counts may be written as any decimal numeric (IEEE-488.2 <NRf>: 2097152, 2097152.0, 2.097152e6): the value is what the statement limits
+    num = r"(-?\d+(?:\.\d*)?(?:[eE][-+]?\d+)?)"
+    m = re.fullmatch(r":DIG(-?\d+):PATT:LENG " + num, c)
     if m:
-        return rec("PATT:LENG", int(m.group(1)), int(m.group(2)), 1)
-    m = re.fullmatch(r":DIG(-?\d+):PATT:PLEN (-?\d+)", c)
+        return rec("PATT:LENG", int(m.group(1)), float(m.group(2)), 1)
+    m = re.fullmatch(r":DIG(-?\d+):PATT:PLEN " + num, c)
     if m:
-        return rec("PATT:PLEN", int(m.group(1)), int(m.group(2)), 1)
+        return rec("PATT:PLEN", int(m.group(1)), float(m.group(2)), 1)
     m = re.fullmatch(r":SKEW(-?\d+) (\S+)", c)
     if m:
         return rec("SKEW", int(m.group(1)), float(m.group(2)), 1e-12)
@@ -423,6 +425,13 @@ def run(ctx):
                 events.append({"kind": "set", "q": q, "req": [max(-10 ** 9, min(10 ** 9, v_))], "scalar": True, "sel": sel, "cmds": cmds, "warned": warned, "raised": bool(raised)})
                 meta.append(("set", q, "absurd", "sel", raised))
         ctx.case(("rset-absurd", q))
+    # ... and as one element of a per-channel list (numpy then holds the whole list as floats: the lengths go out as 2097152.0, 2.0 - in range all the same)
+    for req_ in ([2 ** 63, 1730608, 2, 1], [5, 10 ** 30, 7, 2 ** 64], [2 ** 21, 2 ** 64]):
+        for sel in ([], [7], [1, 3, 2, 4]):
+            cmds, warned, raised = do_set(ppg, "plen", req_, False, sel)
+            events.append({"kind": "set", "q": "plen", "req": [max(-10 ** 9, min(10 ** 9, v_)) for v_ in req_], "scalar": False, "sel": sel, "cmds": cmds, "warned": warned, "raised": bool(raised)})
+            meta.append(("set", "plen", "absurd-in-list", "sel", raised))
+    ctx.case(("rset-absurd-list", "plen"))
     validate(ctx, events, meta, 1024, 2 ** 21, "absurd requests (real constants)")
     # whole-number requests written as integers (deterministic): below, inside and above the range, every spelling, every quantity that takes volts or counts
     ppg = new_ppg()
